@@ -27,6 +27,7 @@ def run_one(name, all_props, props_claimed):
     tmp = tempfile.mkdtemp(prefix='seed-', dir='/tmp')
     try:
         shutil.copytree('/repo/soupsieve', os.path.join(tmp, 'soupsieve'))
+        os.symlink('/repo/docs', os.path.join(tmp, 'docs'))
         r = subprocess.run(['git', 'apply', '--unsafe-paths', f'--directory={tmp}', os.path.join(d, 'patch.diff')],
                            capture_output=True, text=True, cwd='/')
         if r.returncode:
